@@ -49,7 +49,10 @@ def run(c):
         "only drops file DATA); file data is durable after fsync; a crash keeps, per file, the durable data plus ANY prefix of the data written since "
         "(between-operations, torn write and drop-unsynced are the three named instances)",
         "file-system calls do not fail (errors of create/write/fsync/rename are outside the property's quantifier); message ids are unique; "
-        "the delivery goroutine does not panic (a panic quarantines the message as .meta_broken by design: hypothesis `quarantined = false` of C02_accepted_survives)",
+        "the delivery TARGET does not panic (a panic quarantines the message as .meta_broken by design: hypothesis `quarantined = false` of C02_accepted_survives); "
+        "the monitor only excuses panics the harness scripted into the target - a .meta_broken the queue produces on its own in a recovery run is a loss",
+        "null reverse-path (MAIL FROM:<>): emitDSN produces no report, a recipient that fails for good is given up on (C02_terminal_outcome, C02_report_iff_sender); "
+        "the monitor accepts that only after the target returned a permanent failure or maxTries temporary ones for that recipient",
         "encoding/json round trip of QueueMetadata (Codec.rt) and textproto.WriteHeader/ReadHeader round trip of an accepted header (hdrOk) are parameters of the model",
         "terminal outcome of a recipient (delivered by the target / named in a failure report) is the one established by C01; without a bounce pipeline a permanent failure is only logged",
         "non-Windows branch of updateMetadataOnDisk",
@@ -61,18 +64,22 @@ def run(c):
         "quiescence of a real queue run is detected from the queue's own log messages (loaded N / removed message from disk / read message)",
     ]
     return c.finish(
-        rule="random scenarios: 1-3 messages in one spool directory (sequential, simultaneous or staggered transactions), 1-3 recipients, 1- or 2-field headers written in several "
+        rule="random scenarios: 1-3 messages in one spool directory (sequential, simultaneous or staggered transactions), 1-3 recipients, envelope spelled plain / null reverse-path / "
+        "internationalised + SMTPUTF8 / quoted local parts / mixed, 1- or 2-field headers written in several "
         "pieces, bodies of 2-300 bytes, fate commit / abort after Body / transaction still open, max_tries 1-3, per attempt and recipient ok|temporary|permanent|unclassified "
         "(fault density 0-90%), occasional panic of the delivery goroutine; the REAL queue (queue.go compiled against the recording os shim) runs each scenario to quiescence; "
         "then for EVERY mutating file-system call of the run, in the order the calls really interleaved: the directory as it is before the call, in the middle of the call when it "
         "is a write (1 byte, half, all but one byte, and every piece boundary), each with nothing lost / all un-synced data dropped (/ a random part of each file's un-synced data "
-        "kept); a fresh REAL queue with recording target and bounce target is started on every such directory and run to quiescence with new scripted outcomes; that run is "
+        "kept); a fresh REAL queue with recording target and bounce target is started on every such directory and run to quiescence with new scripted outcomes (whenever the directory "
+        "holds something deliverable: a script that fails recipients temporarily/permanently from the first attempt of the recovery run on, and for a third of the directories also the all-ok script); that run is "
         "crashed again in the same way (depth 2: thorough tier for all, quick tier for a sample); per message id the whole history is replayed by the Lean model "
         "(call order, attempts, deliveries, reports, clean-up, final files incl. durable lengths and stored retry counters compared); plus hand-made directories "
-        "(any subset of the five files, valid/garbage metadata, valid/garbage header, files deleted between start-up scan and dispatch) to reach every branch of readDiskQueue/openMessage; "
+        "(any subset of the five files, valid/garbage metadata written by the queue's own encoder in its acceptance-time and after-a-failure forms with every envelope spelling, valid/garbage header, "
+        "files deleted between start-up scan and dispatch) to reach every branch of readDiskQueue/openMessage; "
         "distinct = distinct per-id histories",
         explanation="inductive invariant over a small-step model in which every single file-system call is a step and a crash (any loss of un-synced data, any torn write) is possible in "
         "every state, recovery included to any depth; model tied to queue.go by the regenerated call skeleton (T1) and by exhaustive crash-point enumeration on the real code (T2); "
-        "independent Go monitor on the real events (accepted-lost, aborted-delivered, foreign-recipient, resent-after-later-attempt, content)",
+        "independent Go monitor on the real events (accepted-lost / stored-lost: in EVERY recovery run each pending recipient of a complete stored message is attempted and then delivered, "
+        "reported, or still pending in a loadable .meta; aborted-delivered, foreign-recipient, resent-after-later-attempt, content)",
         search=search,
     )
